@@ -131,6 +131,9 @@ class C24(core.Check):
             {'k': 'ins', 'soft': False, 'ops': [['RAW', [97, 13, 10, 98, 99]], ['I'], ['IS', 3], ['C'], ['DISK']]},
             {'k': 'ins', 'soft': False, 'ops': [['RAW', [13, 10] * 70 + [97]], ['I']] + [['IS', 1], ['LOC']] * 70 +
                                              [['EOF'], ['LOC'], ['C'], ['DISK']]},
+            # seed C24f: #1 open on T.DAT, OPEN "S.DAT" FOR OUTPUT / APPEND AS #1 is refused and must not touch S.DAT
+            {'k': 'any', 'soft': False, 'ops': [['RAW2', [34, 97, 34, 13, 10, 26]], ['O'], ['W', [['s', [98]]]], ['XO', 'O'],
+                                              ['C'], ['I'], ['XO', 'A'], ['IN', '$'], ['XO', 'I'], ['C'], ['DISK'], ['DISK2']]},
             # outside the class: quotes, NUL, 1A, LF (default mode), leading CR LF (soft mode)
             self.mk_any(False, [['W', [['s', [97, 34, 98]], ['s', [0, 97, 0]], ['s', [97, 26, 98]], ['s', [97, 10, 98]]]]],
                         ['IN', '$'], 6),
@@ -217,7 +220,8 @@ class C24(core.Check):
         """(sessions, probes) of a well-formed round-trip case whose values are in the documented class, else
         None (the round-trip oracle and the shrinker only apply to those)."""
         try:
-            soft, ops, rt = case['soft'], case['ops'], case['k'] == 'rt'
+            soft, rt = case['soft'], case['k'] == 'rt'
+            ops = [o for o in case['ops'] if o[0] not in ('RAW2', 'DISK2', 'XO')]
             sessions = []
             for o in ops:
                 if o[0] in ('O', 'A'):
@@ -450,6 +454,9 @@ class C24(core.Check):
                 c = self.g_raw(rng, soft)
             else:
                 c = self.g_ins(rng, soft)
+            if rng.random() < 0.35:
+                c = self.with_refused_open(rng, c)
+                hist['refused_opens'] = hist.get('refused_opens', 0) + 1
             hist[c['k']] += 1
             if c['k'] in ('rt', 'rtl'):
                 i0 = [i for i, o in enumerate(c['ops']) if o[0] == 'I'][-1]
@@ -555,6 +562,28 @@ class C24(core.Check):
             return ['EOF', 'LOF']
         return [list(rng.choice(self.RP_POOL)) for _ in range(n + 1)]
 
+    def with_refused_open(self, rng, c):
+        """history step: another, previously written data file S.DAT; while #1 is open, OPEN "S.DAT" FOR
+        OUTPUT/APPEND/INPUT AS #1 is refused (File already open) - and S.DAT is dumped at the end"""
+        ops = list(c['ops'])
+        opens = []
+        state = None
+        for i, o in enumerate(ops):
+            if o[0] in ('O', 'A', 'I') and state is None:
+                if o[0] != 'I' or self._exists(ops[:i + 1]):
+                    state = o[0]
+            elif o[0] == 'C':
+                state = None
+            if state is not None and o[0] not in ('RAW', 'DISK'):
+                opens.append(i)
+        if not opens:
+            return c
+        body = [rng.choice([97, 98, 13, 10, 34, 44, 49]) for _ in range(rng.choice([1, 5, 20, 130]))]
+        other = body + rng.choice([[26], [26], [], [13, 10, 26]])
+        for i in sorted(set(rng.choice(opens) for _ in range(rng.choice([1, 1, 2]))), reverse=True):
+            ops.insert(i + 1, ['XO', rng.choice('OOAAI')])
+        return dict(c, ops=[['RAW2', other]] + ops + [['DISK2']])
+
     def g_any(self, rng, soft):
         ops = []
         state = 'closed'
@@ -651,6 +680,7 @@ class C24(core.Check):
         error = importlib.import_module('pcbasic.basic.base.error')
         d = common.tmpdir('c24')
         path = os.path.join(d, 'T.DAT')
+        path2 = os.path.join(d, 'S.DAT')
         out, log = [], []
         calls = []
         had_own = 'input_entry' in diskfiles.TextFile.__dict__
@@ -798,6 +828,17 @@ class C24(core.Check):
                                 res = [0]
                             else:
                                 res = [4]
+                        elif k == 'RAW2':
+                            with open(path2, 'wb') as f:
+                                f.write(bytes(bytearray(o[1])))
+                            res = []
+                        elif k == 'DISK2':
+                            res = []
+                            rec['disk2'] = list(bytearray(open(path2, 'rb').read())) if os.path.exists(path2) else None
+                        elif k == 'XO':
+                            # an OPEN that must be refused: file number 1 is in use; it names another file
+                            s.execute('OPEN "S.DAT" FOR %s AS 1' % {'O': 'OUTPUT', 'A': 'APPEND', 'I': 'INPUT'}[o[1]])
+                            res = status()
                         elif k == 'DISK':
                             if mode is not None:
                                 res = [4]
@@ -862,6 +903,8 @@ class C24(core.Check):
         k = o[0]
         if k in ('O', 'A', 'I'):
             return 'OpOpen' + k
+        if k == 'XO':
+            return 'OpOpen' + o[1]
         if k == 'C':
             return 'OpClose'
         if k == 'W':
@@ -880,8 +923,8 @@ class C24(core.Check):
             or '(OpRaw ' + _bl(o[1]) + ')'
 
     def model_term(self, case):
-        return '(run_script_hashed %s [%s])' % ('true' if case['soft'] else 'false',
-                                         ';'.join(self.op_term(o) for o in case['ops']))
+        return '(run_script_hashed %s [%s])' % ('true' if case['soft'] else 'false', ';'.join(
+            self.op_term(o) for o in case['ops'] if o[0] not in ('RAW2', 'DISK2')))
 
     def nontrivial(self, case, out):
         log = self._run_cached(case)[1]
@@ -990,6 +1033,17 @@ class C24(core.Check):
                     dev.append(('loc', 'LOC=%d in output mode with %d bytes written' % (r['v'], len(content))))
                 if mode == 'I' and isinstance(disk, bytes) and not 1 <= r['v'] <= max(1, (127 + len(disk)) // 128):
                     dev.append(('loc', 'LOC=%d outside 1..ceil(LOF/128)' % r['v']))
+        # a refused OPEN (file number in use) must change nothing: the other file it names keeps its bytes
+        other = None
+        for o, r in zip(ops, log):
+            if o[0] == 'RAW2':
+                other = list(o[1])
+            elif o[0] == 'XO' and r['res'] != [1, 55] and r['res'] != [0]:
+                pass
+            elif o[0] == 'DISK2' and other is not None and r.get('disk2') != other:
+                got = r.get('disk2')
+                dev.append(('refused', 'a refused OPEN ... AS #1 (file number in use) changed the file it names: '
+                            '%s bytes instead of the %d written' % ('no' if got is None else len(got), len(other))))
         if case['k'] == 'rtp':
             return dev + self.dev_rtp(case, log)
         if case['k'] == 'ins':
